@@ -977,6 +977,11 @@ func c19Callbacks() []gojq.CompilerOption {
 			n := 0
 			return &c19FuncIter{func() (any, bool) { n++; return []any{a[0], a[1]}, n <= 2 }}
 		}),
+		// names of the natives the interpreter tracks paths through, at arities those natives do not have: plain functions
+		gojq.WithFunction("getpath", 0, 0, func(v any, _ []any) any { return v }),
+		gojq.WithFunction("getpath", 2, 2, func(v any, _ []any) any { return v }),
+		gojq.WithFunction("_index", 1, 1, func(v any, _ []any) any { return v }),
+		gojq.WithFunction("_slice", 1, 1, func(v any, _ []any) any { return v }),
 		gojq.WithFunction("cfv", 0, 2, func(v any, a []any) any { return len(a) }),
 		gojq.WithIterFunction("cit", 1, 1, func(v any, a []any) gojq.Iter {
 			x := a[0]
@@ -1007,7 +1012,7 @@ func c19Callbacks() []gojq.CompilerOption {
 	}
 }
 
-const c19Defs = `def cf0: [.]; def cfid: .; def cf1(a): a as $a | $a; def cf2(a; b): b as $b | a as $a | [$a, $b]; ` +
+const c19Defs = `def getpath: .; def getpath($a; $b): .; def _index($a): .; def _slice($a): .; def cf0: [.]; def cfid: .; def cf1(a): a as $a | $a; def cf2(a; b): b as $b | a as $a | [$a, $b]; ` +
 	`def cf3(a; b; c): c as $c | b as $b | a as $a | . as $i | {a: $a, b: $b, c: $c, i: $i}; ` +
 	`def cfe(a): a as $a | if $a == 2 then error({bad: $a}) else [$a] end; def cfp(a): a as $a | if $a == 2 then error("plain failure") else $a end; ` +
 	`def cfr(a): a as $a | [$a]; def cfr(a; b): b as $b | a as $a | [$a, $b]; def cfr(a; b; c): . as $i | c as $c | b as $b | a as $a | [$a, $b, $c, $i]; def cir(a): a as $a | ($a, $a); def cir(a; b): b as $b | a as $a | ([$a, $b], [$a, $b]); def cfa(a; b): b as $b | a as $a | [$a, $b]; def cfapp: [.]; def cfapp(a): a as $a | [$a, .]; def cfapp(a; b): b as $b | a as $a | [$a, $b, .]; def cfv: 0; def cfv(a): a as $a | 1; def cfv(a; b): b as $b | a as $a | 2; ` +
@@ -1038,7 +1043,7 @@ func c19Leaves(quick bool) []string {
 	}
 	leaves = append(leaves, "cf1(cf1(cf1(7)))", "cit(cit(1))", "cf2(cit(1); cite(5))", "clazy(cit(1); cf2(1; (2,3)))", "cit(1) | cf1(.)", "cfid | cfid", "cfid.a", "cfid[]?", "cf0[0]", "cit1.a", "cit1 | .[]?",
 		"cf1(.a)[0]?", "cf1(.) | .a?", "cite(1)?", "cfe((1,2,3))?", "(cit(1) | select(. > 1))", "[cit(1)] | map(cf1(. * 2))", "cit(1) as $v | cf1($v + 10)", "[cfr(1; 2), cfr(3; 4)]", `cfr(1; 2) as $p | ("x" | ltrimstr("y")) | $p`, "[cfr((1,2))]", "[cfr(1), cfr(2; 3), cfr(4; 5; 6)]", "cfr(1; 2; 3) as $p | cfr(7) | [$p, .]", "[cir(10; 13) | .[0] + 100]", "[cir((1,2)), cir(3; 4)]", "cir(1) as $x | cir(2; 3) | [$x, .]", "[cfr(cir(1); cir(2))]",
-		"cfa(1; 2) as $p | cfa(3; 4) | [$p, .]", "[cfa((1,2); (3,4))]", "cfa(cfa(1; 2); cfa(3; 4))", "cf1($x)", "cf1(f)", "cf1(break $l)", "cit(break $l)")
+		"cfa(1; 2) as $p | cfa(3; 4) | [$p, .]", "[cfa((1,2); (3,4))]", "cfa(cfa(1; 2); cfa(3; 4))", "getpath | .a?", "getpath(1; 2) | .a?", `getpath(["b"]; 2) | .a?`, "_index(1) | .a?", "_slice(1) | .a?", "_slice(.) | .a?", "[getpath, getpath(1; 2)]", "getpath(.; .)", "cf1($x)", "cf1(f)", "cf1(break $l)", "cit(break $l)")
 	return leaves
 }
 
